@@ -45,6 +45,11 @@ DecOK(r) ==
        /\ r.ts = KeepaliveTs(b)
        /\ r.info = InfoT(KeepaliveInfo(b))
        /\ r.reg1 = IsReg1(b) /\ r.reg2 = IsReg2(b) /\ r.reg3 = IsReg3(b)
+       \* a manager that awaits the answer to its REG1 adopts the id of a REG2 frame, and of nothing shorter or of
+       \* another type (what it does with a longer frame of that type the statement leaves open)
+       /\ ("regacc" \in DOMAIN r) => /\ (IsReg2(b) => r.regacc)
+                                      /\ (r.regacc => (Len(b) >= RegLen /\ HasType(b, TReg2)))
+                                      /\ r.regid
        /\ r.ka = IsKeepalive(b) /\ r.isack = IsSrtAck(b)
        \* SRTLA ACK: one number per whole word after the 4-byte header
        /\ r.lack_n = Len(la)
@@ -69,6 +74,9 @@ SumOK(r) ==
        /\ r.ts = KeepaliveTs(p) /\ r.info = InfoT(KeepaliveInfo(p))
        /\ r.ka = IsKeepalive(p) /\ r.isack = IsSrtAck(p)
        /\ r.reg1 = (L = RegLen /\ HasType(p, TReg1)) /\ r.reg2 = (L = RegLen /\ HasType(p, TReg2)) /\ r.reg3 = FALSE
+       /\ ("regacc" \in DOMAIN r) => /\ ((L = RegLen /\ HasType(p, TReg2)) => r.regacc)
+                                      /\ (r.regacc => (L >= RegLen /\ HasType(p, TReg2)))
+                                      /\ r.regid
        /\ r.lack_n = (IF HasType(p, TAck) THEN words ELSE 0)
        /\ \A j \in 1..Len(r.lack_at) : /\ r.lack_at[j][1] \in 1..9
                                        /\ W32(p, 4 * r.lack_at[j][1]) = <<r.lack_at[j][2], r.lack_at[j][3]>>
